@@ -97,7 +97,7 @@ def interp(ctx, L, even, level='array'):
               (L, n_out, kind, k))
 
 
-def fourier(ctx, L, factor, even, harm):
+def fourier(ctx, L, factor, even, harm, nyq=False):
     """band-limited periodic record: x_j = A0 + sum_k A_k cos(2 pi k j/L) + B_k sin(2 pi k j/L)."""
     lib = ctx.lib
     dt = 0.01
@@ -105,6 +105,11 @@ def fourier(ctx, L, factor, even, harm):
     A = [ctx.real('A%d' % k, -10.0, 10.0) for k in range(1, harm + 1)]
     B = [ctx.real('B%d' % k, -10.0, 10.0) for k in range(1, harm + 1)]
     coef = [A0] + A + B
+    # optional component at the OLD Nyquist frequency (even L): below the new Nyquist whenever the record is refined, so
+    # it has to be reproduced as An*cos(pi*t/dt) (the one-sided spectrum's unpaired bin must be split, not doubled)
+    An = ctx.real('An', -10.0, 10.0) if nyq else None
+    if nyq:
+        coef = coef + [An]
 
     def rec(npts, scale):
         out = []
@@ -113,6 +118,8 @@ def fourier(ctx, L, factor, even, harm):
             for k in range(1, harm + 1):
                 ang = 2 * math.pi * k * j * scale / L
                 tot = tot + A[k - 1] * math.cos(ang) + B[k - 1] * math.sin(ang)
+            if nyq:
+                tot = tot + An * math.cos(math.pi * j * scale)
             out.append(tot)
         return out
     x = ctx.np.array(rec(L, 1.0))
@@ -129,7 +136,7 @@ def fourier(ctx, L, factor, even, harm):
     if even:
         ctx.claim('even_length_when_requested', n_out % 2 == 0, n_out)
     # below the new Nyquist?  highest harmonic `harm` cycles per record of L samples -> needs n_out > 2*harm
-    if n_out > 2 * harm and L > 2 * harm:
+    if n_out > 2 * harm and L > 2 * harm and (not nyq or (L % 2 == 0 and n_out > L)):
         want = rec(n_out, float(L) / n_out)
         ctx.claim('band_limited_periodic_signal_reproduced',
                   S.sym_and(*[ctx.abs_lin_le(out[j] - want[j], [1e-10] * len(coef), coef) for j in range(n_out)]),
@@ -150,3 +157,5 @@ def obligations(tier, seed):
         for factor in (2, 3, 0.5, 1.0 / 3, 1):
             for even in (True, False):
                 yield Ob('fourier', {'L': L, 'factor': factor, 'even': even, 'harm': 2 if q else 3}, query_ms=60000)
+                if L % 2 == 0 and factor > 1:
+                    yield Ob('fourier', {'L': L, 'factor': factor, 'even': even, 'harm': 1, 'nyq': True}, query_ms=60000)
